@@ -5,6 +5,7 @@ package props
 import (
 	"fmt"
 	"os"
+	"path/filepath"
 	"sort"
 	"strings"
 	"testing"
@@ -826,6 +827,56 @@ func TestC01(t *testing.T) {
 		}
 	}
 	RunEnum(c, t, "tagged-documents", len(tagged), func(i int) c01Case { return tagged[i] }, c01Check, true)
+
+	// (1e) symbolic links in the places the loader looks at: links to files, to directories, dangling ones and cycles
+	// (a link to itself, two links pointing at each other). A cycle is a state of the file system like any
+	// other: the load returns, with a project or an error.
+	type linkShape struct {
+		name  string
+		files func(at string) []memFile
+	}
+	shapes := []linkShape{
+		{"self-loop", func(at string) []memFile { return []memFile{{Name: at, Link: filepath.Base(at)}} }},
+		{"two-link-loop", func(at string) []memFile {
+			return []memFile{{Name: at, Link: filepath.Base(at) + ".other"}, {Name: at + ".other", Link: filepath.Base(at)}}
+		}},
+		{"dangling", func(at string) []memFile { return []memFile{{Name: at, Link: "nowhere/gone"}} }},
+		{"link-to-dir", func(at string) []memFile {
+			return []memFile{{Name: "realdir/keep", Content: "K=1\n"}, {Name: at, Link: strings.Repeat("../", strings.Count(at, "/")) + "realdir"}}
+		}},
+		{"link-in-the-middle-loop", func(at string) []memFile {
+			return []memFile{{Name: filepath.Dir(at) + "-loop", Link: filepath.Base(filepath.Dir(at)) + "-loop"}}
+		}},
+	}
+	uses := map[string]string{
+		"develop.watch":     "services:\n  s:\n    image: x\n    develop:\n      watch:\n        - {path: %s, action: sync, target: /t}\n",
+		"env_file":          "services:\n  s:\n    image: x\n    env_file: [%s]\n",
+		"env_file-optional": "services:\n  s:\n    image: x\n    env_file: [{path: %s, required: false}]\n",
+		"label_file":        "services:\n  s:\n    image: x\n    label_file: [%s]\n",
+		"build.context":     "services:\n  s:\n    build: {context: %s}\n",
+		"bind-source":       "services:\n  s:\n    image: x\n    volumes: [\"%s:/mnt\"]\n",
+		"secret-file":       "services:\n  s:\n    image: x\nsecrets:\n  sec: {file: %s}\n",
+		"include":           "include: [%s]\nservices:\n  s:\n    image: x\n",
+		"extends-file":      "services:\n  s:\n    extends: {file: %s, service: base}\n",
+		"include-env_file":  "include:\n  - {path: inc.yaml, env_file: %s}\nservices:\n  s:\n    image: x\n",
+	}
+	var links []c01Case
+	for _, use := range sortedStrKeys(uses) {
+		for _, sh := range shapes {
+			for _, at := range []string{"./ln", "./sub/dir/ln"} {
+				rel := at
+				if sh.name == "link-in-the-middle-loop" {
+					rel = filepath.Dir(at) + "-loop/inner"
+					if !strings.HasPrefix(rel, ".") {
+						rel = "./" + rel
+					}
+				}
+				files := append([]memFile{{Name: "compose.yaml", Content: fmt.Sprintf(uses[use], rel)}, {Name: "inc.yaml", Content: "services:\n  inc:\n    image: i\n"}}, sh.files(strings.TrimPrefix(at, "./"))...)
+				links = append(links, c01Case{What: "symbolic-link", Path: use + ":" + sh.name, Position: at, OnDisk: true, Load: loadCase{Files: files, Main: []string{"compose.yaml"}}})
+			}
+		}
+	}
+	RunEnum(c, t, "symbolic-links", len(links), func(i int) c01Case { return links[i] }, c01Check, true)
 
 	// (3) reference cycles
 	cyc := c01CycleCases()
